@@ -1534,6 +1534,22 @@ def _r4a_logged(ctx: Ctx, m: Model) -> None:
                     lfa, a = _log_args(mod, lc)
                     if isinstance(a, ast.Name) and a.id in hb and isinstance(hb[a.id], ast.Name) and hb[a.id].id in dem and norm(lfa) == 'self.lf':   # type: ignore[attr-defined]
                         lognodes += cfg.node_containing(c)
+        logged_names = {(_log_args(mod, lc)[1]).id for lc in logs}      # type: ignore[attr-defined]
+        fl_c = Flow(fn, nested=False)
+        for c in ccalls:
+            # the entry is created under the logged name itself, not "somewhere in its directory under the source's name"
+            de = _wrapper_arg(m, c, 1)
+            prim = {s_.ref.name for s_ in wr[_self_method(c)]}      # type: ignore[index]
+            if isinstance(de, ast.Name) and de.id not in logged_names and prim & {'shutil.copy', 'shutil.copy2', 'shutil.move'}:
+                into_dir = [d_ for d_ in fl_c.defs.get(de.id, [])
+                            if (isinstance(d_, ast.Subscript) and isinstance(d_.value, ast.Call) and U.dotted(mod, d_.value.func) == 'os.path.split'
+                                and isinstance(d_.slice, ast.Constant) and d_.slice.value == 0 and d_.value.args and norm(d_.value.args[0]) in logged_names)
+                            or (isinstance(d_, ast.Call) and U.dotted(mod, d_.func) == 'os.path.dirname' and d_.args and norm(d_.args[0]) in logged_names)]
+                if into_dir:
+                    ctx.violation(mod, f'Installer.{name}', f'{norm(c)} -> entry named after the source',
+                                  f'{short(c, 60)} copies into the directory `{de.id}` (= {short(into_dir[0], 40)}), so the entry is created under the *source\'s* base name, '
+                                  f'while the log (and set_mode) use `{sorted(logged_names)[0]}`: with a renamed destination (install_data rename:, a dangling symlink) '
+                                  f'the created entry and the logged one differ - uninstall leaves it behind and set_mode raises FileNotFoundError', c)
         for c in ccalls:
             n_sites += 1
             nodes = U.node_of(cfg, c)
@@ -2550,26 +2566,52 @@ class LinkSite(T.NamedTuple):
 
 
 def _symlink_sites(m: Model) -> T.List[LinkSite]:
+    """Remove-before-create sites: an Installer method that removes what sits at a destination parameter and then creates an entry
+    there (a symlink via os.symlink, or a copy that may itself be a symlink / would be written *through* a symlink left behind)."""
     mod = m.mod
     wr = m.dry.wrappers()
-    linkers = {w for w, ss in wr.items() if {s.ref.name for s in ss} & {'os.symlink'}}
+    creators = {w for w, ss in wr.items() if {s.ref.name for s in ss} & (U.CREATORS | {'os.symlink'})}
     removers = {w for w, ss in wr.items() if {s.ref.name for s in ss} <= {'os.remove', 'os.unlink'}}
     out: T.List[LinkSite] = []
     for name, fn in m.inst.items():
         if name in wr:
             continue
+        fl = Flow(fn, nested=False)
+        ps = U.params_of(fn)
+        is_remove = lambda x: (_self_method(x) in removers or U.dotted(mod, x.func) in ('os.remove', 'os.unlink')) and U.call_arg(x, 0, 'path') is not None
+        dests = list(dict.fromkeys(norm(U.call_arg(x, 0, 'path')) for x in calls_in(fn) if is_remove(x)))
+        # a symlink creation needs the removal even if none is written (yet): os.symlink never overwrites
         for c in calls_in(fn):
-            if _self_method(c) not in linkers:
+            if _self_method(c) in wr and {s_.ref.name for s_ in wr[_self_method(c)]} & {'os.symlink'}:      # type: ignore[index]
+                de0 = U.call_arg(c, 1, 'dst')
+                if de0 is None:
+                    raise Undecided(f'Installer.{name}: symlink call shape {short(c)}')
+                if not (isinstance(de0, ast.Name) and de0.id in ps and not fl.defs.get(de0.id)):
+                    raise Undecided(f'Installer.{name}: symlink destination `{short(de0)}` is not an unmodified parameter')
+                if de0.id not in dests:
+                    dests.append(de0.id)
+        for dest in dests:
+            if not (dest in ps and not fl.defs.get(dest)):
+                continue           # only destinations that are unmodified parameters are judged
+            # creation calls whose destination is `dest` or is derived from it (directory of it, through locals)
+            def mentions(e: ast.AST, depth: int = 0) -> bool:
+                for n_ in ast.walk(e):
+                    if isinstance(n_, ast.Name):
+                        if n_.id == dest:
+                            return True
+                        if depth < 3 and n_.id not in ps and any(mentions(d_, depth + 1) for d_ in fl.defs.get(n_.id, [])):
+                            return True
+                return False
+            ccalls = []
+            for c in calls_in(fn):
+                if _self_method(c) in creators:
+                    de = _wrapper_arg(m, c, 1)
+                    if de is not None and mentions(de):
+                        ccalls.append(c)
+            if not ccalls:
                 continue
-            d = U.call_arg(c, 1, 'dst')
-            if d is None:
-                raise Undecided(f'Installer.{name}: symlink call shape {short(c)}')
-            if not (isinstance(d, ast.Name) and d.id in U.params_of(fn) and not Flow(fn, nested=False).defs.get(d.id)):
-                raise Undecided(f'Installer.{name}: symlink destination `{short(d)}` is not an unmodified parameter')
-            dest = d.id
             cfg = CFG(fn)
-            rem = [n for n in cfg.nodes_with_call(lambda x: (_self_method(x) in removers or U.dotted(mod, x.func) in ('os.remove', 'os.unlink'))
-                                                  and U.call_arg(x, 0, 'path') is not None and norm(U.call_arg(x, 0, 'path')) == dest)]
+            rem = [n for n in cfg.nodes_with_call(lambda x: is_remove(x) and norm(U.call_arg(x, 0, 'path')) == dest)]
             probes: T.Dict[str, str] = {}
             for x in calls_in(fn):
                 dn = U.dotted(mod, x.func)
@@ -2579,21 +2621,22 @@ def _symlink_sites(m: Model) -> T.List[LinkSite]:
             for n_ in cfg.nodes:
                 if n_.kind == 'test':
                     for x in walk_no_nested(n_.ast.test):   # type: ignore[union-attr]
-                        if isinstance(x, ast.Call) and norm(x) not in probes and any(isinstance(y, ast.Name) and y.id == dest for a_ in list(x.args) + [x.func] for y in ast.walk(a_)):
-                            raise Undecided(f'Installer.{name}: the test `{short(x)}` of the link path is not one of the classified os.path probes')
-            cnodes = U.node_of(cfg, c)
+                        if isinstance(x, ast.Call) and norm(x) not in probes and _self_method(x) is None \
+                                and any(isinstance(y, ast.Name) and y.id == dest for a_ in list(x.args) + [x.func] for y in ast.walk(a_)):
+                            raise Undecided(f'Installer.{name}: the test `{short(x)}` of `{dest}` is not one of the classified os.path probes')
+            cnodes = [n for c in ccalls for n in U.node_of(cfg, c)]
             free = U.feasible_reach(cfg, [cfg.entry], {'self.dry_run': False, **{k: False for k in probes}}, alias, avoid=rem)
             if not any(n.id in free for n in cnodes):
-                raise Undecided(f'Installer.{name}: the symlink is not created even when nothing exists at `{dest}`')
+                raise Undecided(f'Installer.{name}: nothing is created even when nothing exists at `{dest}`')
             failing = []
             live = {'self.dry_run': False}       # the removal wrappers act only when not dry-run; judge the real install
-            live.update(_predicate_facts(m, lambda ps: {'self.dry_run': False}, []))
+            live.update(_predicate_facts(m, lambda ps_: {'self.dry_run': False}, []))
             for kind, ans in ENTRY_KINDS.items():
                 facts = {**live, **{k: ans[p] for k, p in probes.items()}}
                 reach = U.feasible_reach(cfg, [cfg.entry], facts, alias, avoid=rem)
                 if any(n.id in reach for n in cnodes):
                     failing.append(kind)
-            out.append(LinkSite(name, c, dest, failing, sorted(set(probes.values()))))
+            out.append(LinkSite(name, ccalls[0], dest, failing, sorted(set(probes.values()))))
     return out
 
 
@@ -2605,26 +2648,13 @@ def r6(ctx: RuleCtx) -> None:
     m = _model(ctx)
     mod = m.mod
     sites = _symlink_sites(m)
-    ctx.floor('symlink creation sites in Installer', len(sites), 1)
+    ctx.floor('remove-before-create sites in Installer', len(sites), 1)
     for s in sites:
-        ctx.require(not s.failing, f'Installer.{s.method}: whatever already sits at `{s.dest}` ({len(ENTRY_KINDS)} entry kinds, probes {s.probes}) is removed or rejected before {short(s.call, 40)}',
-                    mod, f'Installer.{s.method}', s.call,
-                    f'when {" / ".join(s.failing)} already exists at `{s.dest}`, self.symlink(...) is reached without self.remove({s.dest}) (probes used: {s.probes}; '
-                    f'exists/isfile/isdir follow symlinks): os.symlink raises FileExistsError, the handler reports "symlinks unsupported", nothing is logged - '
-                    f'a second install no longer produces the same tree and log', s.call)
-    # information: other remove-before-create sites whose probe follows symlinks
-    wr = m.dry.wrappers()
-    removers = {w for w, ss in wr.items() if {x.ref.name for x in ss} <= {'os.remove', 'os.unlink'}}
-    for name, fn in m.inst.items():
-        if name in wr or any(s.method == name for s in sites):
-            continue
-        for c in calls_in(fn):
-            if _self_method(c) in removers and U.call_arg(c, 0, 'path') is not None:
-                d = norm(U.call_arg(c, 0, 'path'))
-                used = sorted({U.dotted(mod, x.func).rsplit('.', 1)[1] for x in calls_in(fn)   # type: ignore[union-attr]
-                               if U.dotted(mod, x.func) in PROBES_FOLLOW | PROBES_NOFOLLOW and len(x.args) == 1 and norm(x.args[0]) == d})
-                ctx.note(f'not decided: Installer.{name} removes `{d}` before re-creating it under probes {used} '
-                         f'({"follows symlinks: a dangling link at the destination is not removed" if "lexists" not in used else "no-follow probe present"})')
+        ctx.require(not s.failing, f'Installer.{s.method}: whatever already sits at `{s.dest}` ({len(ENTRY_KINDS)} entry kinds, probes {s.probes}) is removed or rejected before anything is created there',
+                    mod, f'Installer.{s.method}', f'remove-before-create of `{s.dest}`',
+                    f'when {" / ".join(s.failing)} already exists at `{s.dest}`, {short(s.call, 50)} is reached without self.remove({s.dest}) (probes used: {s.probes}; '
+                    f'exists/isfile/isdir follow symlinks, so an entry left by a previous install is not seen): the creation fails with FileExistsError or is written through the old '
+                    f'link - installing twice does not give the same tree and log', s.call)
 
 
 # =============================================================================================
@@ -2864,6 +2894,185 @@ def r7(ctx: RuleCtx) -> None:
     ctx.note(f'os.walk loops whose exclusion rows were read: {nw}')
 
 
+# =============================================================================================
+# R8 install-data generation (backend/backends.py): per-item records are built from all the components of the item,
+#    and the directory name appended for install_subdir is the basename of the recorded (sanitised) source path
+
+BACK = 'mesonbuild/backend/backends.py'
+
+
+def _record_classes(mod: Module) -> T.Dict[str, T.List[str]]:
+    """Element classes of the InstallData collections (read from the annotations of InstallData.__init__), with subclasses,
+    mapped to their constructor parameter names (dataclass fields in order, through one base class, or an explicit __init__)."""
+    if not mod.has_cls('InstallData'):
+        raise Undecided('backends.py: class InstallData not found')
+    names: T.Set[str] = set()
+    for n in ast.walk(mod.cls('InstallData')):
+        if isinstance(n, ast.AnnAssign) and isinstance(n.annotation, ast.Subscript) and norm(n.annotation.value) in ('T.List', 'List', 'list'):
+            nm = norm(n.annotation.slice).strip('\'"')
+            if mod.has_cls(nm):
+                names.add(nm)
+    for cn, c in mod.classes().items():
+        if any(norm(b) in names for b in c.bases):
+            names.add(cn)
+
+    def fields(cn: str, depth: int = 0) -> T.List[str]:
+        c = mod.cls(cn)
+        if mod.has_func(f'{cn}.__init__'):
+            return U.params_of(mod.func(f'{cn}.__init__'))
+        out: T.List[str] = []
+        for b in c.bases:
+            if mod.has_cls(norm(b)) and depth < 2:
+                out += fields(norm(b), depth + 1)
+        for st in c.body:
+            if isinstance(st, ast.AnnAssign) and isinstance(st.target, ast.Name) and 'InitVar' not in norm(st.annotation) or \
+                    isinstance(st, ast.AnnAssign) and isinstance(st.target, ast.Name):
+                out.append(st.target.id)
+        return out
+    return {cn: fields(cn) for cn in sorted(names)}
+
+
+R8_EXAMPLE = """
+import os
+class InstallData:
+    def __init__(self):
+        self.symlinks: T.List[InstallSymlinkData] = []
+        self.install_subdirs: T.List[SubdirInstallData] = []
+class InstallSymlinkData:
+    target: str
+    name: str
+    tag: str
+class SubdirInstallData:
+    def __init__(self, path, install_path, exclude=None, tag=None):
+        pass
+class Backend:
+    def gen_links(self, d, t, tag):
+        for alias, to, alias_tag in t.get_aliases():
+            d.symlinks.append(InstallSymlinkData(to, alias, tag))
+    def gen_links_ok(self, d, t):
+        for alias, to, tag in t.get_aliases():
+            d.symlinks.append(InstallSymlinkData(to, alias, tag))
+    def gen_subdirs(self, d):
+        for sd in self.build.get_install_subdirs():
+            src_dir = os.path.join(self.src, sd.installable_subdir).rstrip('/')
+            dst_dir = os.path.join(self.prefix, sd.install_dir)
+            if not sd.strip_directory:
+                dst_dir = os.path.join(dst_dir, os.path.basename(sd.installable_subdir))
+            d.install_subdirs.append(SubdirInstallData(src_dir, dst_dir))
+"""
+
+
+def _dropped_components(mod: Module, recs: T.Dict[str, T.List[str]]) -> T.Tuple[T.List[T.Tuple[str, ast.For, str, str]], int]:
+    out: T.List[T.Tuple[str, ast.For, str, str]] = []
+    nloops = 0
+    for q, fn in mod.funcs().items():
+        for lp in [n for n in walk_no_nested(fn) if isinstance(n, ast.For) and isinstance(n.target, ast.Tuple)]:
+            ctors = [c for b in lp.body for c in ast.walk(b) if isinstance(c, ast.Call) and isinstance(c.func, ast.Name) and c.func.id in recs]
+            if not ctors:
+                continue
+            if not all(isinstance(x, ast.Name) for x in lp.target.elts):     # type: ignore[attr-defined]
+                continue
+            nloops += 1
+            used = {n.id for b in lp.body for n in ast.walk(b) if isinstance(n, ast.Name) and isinstance(n.ctx, ast.Load)}
+            for x in lp.target.elts:      # type: ignore[attr-defined]
+                if x.id not in used and not x.id.startswith('_'):
+                    out.append((q, lp, x.id, ctors[0].func.id))     # type: ignore[attr-defined]
+    return out, nloops
+
+
+def _subdir_basename_sites(mod: Module, recs: T.Dict[str, T.List[str]]) -> T.List[T.Tuple[str, ast.Call, ast.AST, ast.AST, str]]:
+    """(function, constructor call, basename operand, recorded source path, verdict 'ok'|'raw'|'unknown') for records with
+    (path, install_path) whose install_path has a basename(...) component appended."""
+    out = []
+    for q, fn in mod.funcs().items():
+        fl_raw = Flow(fn, nested=False)
+        for c in calls_in(fn):
+            if not (isinstance(c.func, ast.Name) and c.func.id in recs):
+                continue
+            ps = recs[c.func.id]
+            if ps[:2] != ['path', 'install_path'] or 'exclude' not in ps:
+                continue       # the directory-tree record (contents of `path` are copied into `install_path`)
+            p_arg, q_arg = U.call_arg(c, 0, 'path'), U.call_arg(c, 1, 'install_path')
+            if p_arg is None or q_arg is None or not isinstance(q_arg, ast.Name):
+                continue
+            # every expression that flows into the destination, through locals (three levels)
+            exprs: T.List[ast.AST] = []
+            frontier, seen_n = [q_arg.id], {q_arg.id}
+            for _ in range(3):
+                nxt_: T.List[str] = []
+                for nm_ in frontier:
+                    for dv in fl_raw.defs.get(nm_, []):
+                        exprs.append(dv)
+                        for y in ast.walk(dv):
+                            if isinstance(y, ast.Name) and y.id not in seen_n and y.id in fl_raw.defs:
+                                seen_n.add(y.id)
+                                nxt_.append(y.id)
+                frontier = nxt_
+            for dv in exprs:
+                for b in [x for x in ast.walk(dv) if isinstance(x, ast.Call) and U.dotted(mod, x.func) == 'os.path.basename' and len(x.args) == 1]:
+                    e = b.args[0]
+                    if norm(e) == norm(p_arg):
+                        out.append((q, c, e, p_arg, 'ok'))
+                        continue
+                    def trimmed(x: ast.AST, depth: int = 0) -> bool:
+                        if isinstance(x, ast.Call) and isinstance(x.func, ast.Attribute) and x.func.attr in ('rstrip', 'removesuffix'):
+                            return True
+                        if isinstance(x, ast.Call) and U.dotted(mod, x.func) in ('os.path.normpath', 'os.path.abspath', 'os.path.realpath'):
+                            return True
+                        if isinstance(x, ast.Name) and depth < 4:
+                            ds = fl_raw.defs.get(x.id, [])
+                            return bool(ds) and all(trimmed(d_, depth + 1) for d_ in ds)
+                        return False
+
+                    def raw_attrs(x: ast.AST, depth: int = 0) -> T.Set[str]:
+                        acc: T.Set[str] = set()
+                        for n_ in ast.walk(x):
+                            ch_ = attr_chain(n_) if isinstance(n_, ast.Attribute) else None
+                            if ch_ and ch_.split('.')[0] not in ('os', 'self'):
+                                acc.add(ch_)
+                            elif isinstance(n_, ast.Name) and depth < 4:
+                                for d_ in fl_raw.defs.get(n_.id, []):
+                                    if not isinstance(d_, ast.Call) or attr_chain(d_.func) is None or True:
+                                        acc |= raw_attrs(d_, depth + 1) if d_ is not x else set()
+                        return acc
+                    if trimmed(e):
+                        out.append((q, c, e, p_arg, 'ok'))
+                    elif trimmed(p_arg) and raw_attrs(e) and raw_attrs(e) <= raw_attrs(p_arg):
+                        out.append((q, c, e, p_arg, 'raw'))       # the same user string, but without the trimming the recorded path got
+                    else:
+                        out.append((q, c, e, p_arg, 'unknown'))
+    return out
+
+
+def r8(ctx: RuleCtx) -> None:
+    exm = U.synthetic_module('example/backends.py', R8_EXAMPLE)
+    erec = _record_classes(exm)
+    dropped, _ = _dropped_components(exm, erec)
+    sites = _subdir_basename_sites(exm, erec)
+    if [(q, n) for q, _, n, _ in dropped] != [('Backend.gen_links', 'alias_tag')] or [v for *_, v in sites] != ['raw']:
+        raise AnalysisError(f'C11.R8 built-in example not recognised: {dropped} {sites}')
+    ctx.ok('built-in example: an unpacked alias tag that is never used, and basename() of the untrimmed subdir string, are flagged', nontrivial=False)
+    mod = U.nmodule(ctx.repo, BACK)
+    recs = _record_classes(mod)
+    dropped, nloops = _dropped_components(mod, recs)
+    for q, lp, name, ctor in dropped:
+        ctx.violation(mod, q, f'for {norm(lp.target)} in {short(lp.iter, 50)}: {name} unused',
+                      f'each item of `{short(lp.iter, 50)}` is unpacked into {norm(lp.target)}, but `{name}` is never read while the loop builds {ctor}(...) records: '
+                      f'that component of the install rule is dropped (e.g. an alias symlink gets the tag of the primary output instead of its own, so --tags selects the wrong links)', lp)
+    if not dropped:
+        ctx.ok(f'{nloops} loops that unpack per-item tuples while building install records use every unpacked component')
+    sites = _subdir_basename_sites(mod, recs)
+    for q, c, e, p_arg, v in sites:
+        if v == 'unknown':
+            raise Undecided(f'{q}: basename({short(e)}) appended to the destination of {norm(c.func)}: relation to the recorded source `{short(p_arg)}` not understood')
+        ctx.require(v == 'ok', f'{q}: the directory name appended to the destination is the basename of the recorded (trimmed) source path', mod, q, f'os.path.basename({norm(e)})',
+                    f'the destination of {norm(c.func)} gets os.path.basename({norm(e)}) appended, but the recorded source is `{norm(p_arg)}`, which is the same string with trailing '
+                    f'separators trimmed: for install_subdir(\'docs/html/\') the basename is empty and the contents land directly in the install dir instead of <install_dir>/html', c)
+    ctx.note(f'install record classes: {", ".join(recs)}')
+    if not sites:
+        ctx.note('no directory-tree record with a basename component found (nothing to compare)')
+
+
 RULES = [
     Rule('C11.R1', 'mutating calls only in dry-run wrappers', r1),
     Rule('C11.R2', 'destinations rooted under DESTDIR', r2),
@@ -2876,4 +3085,5 @@ RULES = [
     Rule('C11.R5b', 'install_mode string -> mode bits table (ls -l notation)', r5b),
     Rule('C11.R6', 'pre-existing entry at a symlink destination is removed under a no-follow probe', r6),
     Rule('C11.R7', 'no restructuring of a collection while iterating it; os.walk pruning in place', r7),
+    Rule('C11.R8', 'install-data generation: no dropped item component; subdir name from the recorded source path', r8),
 ]
